@@ -194,7 +194,7 @@ pub fn run(tier: &str, seed: u64, out: &str) {
     }
     let mg = MoveGenerator::new();
     let ec = EvalCheck {
-        nav: PosCheck::new(&mg, &rep, Which::Nav),
+        nav: PosCheck::new(crate::eng::tl_mg(), &rep, Which::Nav),
         rep: &rep,
         states: AtomicU64::new(0),
         swap_checked: AtomicU64::new(0),
@@ -346,7 +346,7 @@ pub fn replay_one(fen: &str) -> i32 {
     let rep = Report::new("C14", "quick", 0);
     let mg = MoveGenerator::new();
     let ec = EvalCheck {
-        nav: PosCheck::new(&mg, &rep, Which::Nav),
+        nav: PosCheck::new(crate::eng::tl_mg(), &rep, Which::Nav),
         rep: &rep,
         states: AtomicU64::new(0),
         swap_checked: AtomicU64::new(0),
